@@ -328,51 +328,74 @@ fn rd_u64(b: &[u8], o: usize) -> u64 {
     (rd_u32(b, o) as u64) | ((rd_u32(b, o + 4) as u64) << 32)
 }
 
+/// loop-free little-endian store
+fn put_le(b: &mut [u8], o: usize, v: u64, n: usize) {
+    b[o] = v as u8;
+    if n >= 2 {
+        b[o + 1] = (v >> 8) as u8;
+    }
+    if n >= 4 {
+        b[o + 2] = (v >> 16) as u8;
+        b[o + 3] = (v >> 24) as u8;
+    }
+    if n >= 8 {
+        b[o + 4] = (v >> 32) as u8;
+        b[o + 5] = (v >> 40) as u8;
+        b[o + 6] = (v >> 48) as u8;
+        b[o + 7] = (v >> 56) as u8;
+    }
+}
+
+/// Round trip against a SPEC ENCODER (Java/C++ CountMin layout) in an exact-size array with literal
+/// structure: serialize() must equal it byte for byte (C12, C18) and the decoder runs on the spec image (C11).
 macro_rules! roundtrip {
-    ($name:ident, $t:ty, $wide:ty) => {
+    ($name:ident, $t:ty, $wide:ty, $empty:expr, $len:expr) => {
         #[kani::proof]
-        #[kani::unwind(50)]
+        #[kani::unwind(10)]
         #[kani::stub(alloc::fmt::format, stub_format)]
         fn $name() {
             let counts: [$t; 3] = kani::any();
-            let total: $t = kani::any();
+            let total: $t = if $empty { 0 as $t } else { kani::any() };
+            kani::assume($empty == (total == 0 as $t));
             let mut s = CountMinSketch::<$t>::new(1, 3);
             s.counts[0] = counts[0];
             s.counts[1] = counts[1];
             s.counts[2] = counts[2];
             s.total_weight = total;
+            let mut img = [0u8; $len];
+            img[0] = 2; // preamble longs
+            img[1] = 1; // serial version
+            img[2] = 18; // family id
+            img[3] = if $empty { 1 } else { 0 }; // flags: empty bit 0
+            put_le(&mut img, 4, 0, 4); // unused
+            put_le(&mut img, 8, 3, 4); // num_buckets
+            img[12] = 1; // num_hashes
+            put_le(&mut img, 13, 0x93CC, 2); // seed hash of the default seed
+            img[15] = 0;
+            if !$empty {
+                // total weight and counters as 8 bytes each, sign-extended for signed types
+                put_le(&mut img, 16, (total as $wide) as u64, 8);
+                put_le(&mut img, 24, (counts[0] as $wide) as u64, 8);
+                put_le(&mut img, 32, (counts[1] as $wide) as u64, 8);
+                put_le(&mut img, 40, (counts[2] as $wide) as u64, 8);
+            }
             let bytes = s.serialize();
-            let empty = total == 0 as $t;
-            // ---- independent spec decoder (C12): Java/C++ CountMin layout
-            assert!(bytes.len() == if empty { 16 } else { 16 + 8 + 8 * 3 }, "image length");
-            assert!(bytes[0] == 2, "preamble longs");
-            assert!(bytes[1] == 1, "serial version");
-            assert!(bytes[2] == 18, "family id");
-            assert!((bytes[3] & 1 != 0) == empty && bytes[3] & !1 == 0, "flags");
-            assert!(rd_u32(&bytes, 4) == 0, "unused32");
-            assert!(rd_u32(&bytes, 8) == 3, "num_buckets");
-            assert!(bytes[12] == 1, "num_hashes");
-            assert!(rd_u16(&bytes, 13) == 0x93CC, "seed hash of the default seed");
-            assert!(bytes[15] == 0);
-            if !empty {
-                assert!(rd_u64(&bytes, 16) == (total as $wide) as u64, "total weight field (8 bytes, sign-extended for signed types)");
-                let mut i = 0;
-                while i < 3 {
-                    assert!(rd_u64(&bytes, 24 + 8 * i) == (counts[i] as $wide) as u64, "counter field");
-                    i += 1;
-                }
+            assert!(bytes.len() == $len, "image length is not 16 (+ 8 + 8 * cells)");
+            let mut w = 0;
+            while w < $len / 8 {
+                assert!(rd_u64(&bytes, 8 * w) == rd_u64(&img, 8 * w), "serialized bytes differ from the documented layout");
+                w += 1;
             }
             // ---- round trip (C11)
-            let r = CountMinSketch::<$t>::deserialize(&bytes);
+            let r = CountMinSketch::<$t>::deserialize(&img);
             let g = crate::verif_kani_common::expect_ok(r, "own image rejected");
             assert!(g.num_hashes == 1 && g.num_buckets == 3 && g.seed == s.seed && g.seed_hash == s.seed_hash);
             assert!(g.hash_seeds.len() == 1 && g.hash_seeds[0] == s.hash_seeds[0]);
             assert!(g.total_weight == total);
-            if !empty {
+            if !$empty {
                 assert!(g.counts[0] == counts[0] && g.counts[1] == counts[1] && g.counts[2] == counts[2], "counters changed in round trip");
             }
-            kani::cover!(empty);
-            kani::cover!(!empty);
+            kani::cover!(true);
             core::mem::forget((s, g, bytes));
         }
     };
@@ -385,41 +408,51 @@ macro_rules! roundtrip {
 //@ functions: countmin::CountMinSketch::serialize
 //@ functions: countmin::CountMinSketch::deserialize
 //@ functions: countmin::CountMinSketch::deserialize_with_seed
-//@ unwind: 50
-//@ bounds: 1 x 3 sketch, every counter and total of the counter type (including counters > 0 with total 0 is excluded by serialize's own emptiness rule: total == 0 means empty)
-//@ desc: serialize() follows the CountMin layout (preLongs 2, serVer 1, family 18, empty flag bit 0, num_buckets u32 @8, num_hashes u8 @12, seed hash u16 @13, then total and counters as 8-byte LE) as read by an independent decoder; deserialize(serialize(s)) restores every field
-roundtrip!(c11_countmin_roundtrip_u8, u8, u64); //@ tier: quick
-roundtrip!(c11_countmin_roundtrip_i8, i8, i64); //@ tier: quick
-roundtrip!(c11_countmin_roundtrip_u16, u16, u64);
-roundtrip!(c11_countmin_roundtrip_i16, i16, i64);
-roundtrip!(c11_countmin_roundtrip_u32, u32, u64);
-roundtrip!(c11_countmin_roundtrip_i32, i32, i64);
-roundtrip!(c11_countmin_roundtrip_u64, u64, u64);
-roundtrip!(c11_countmin_roundtrip_i64, i64, i64); //@ tier: quick
+//@ unwind: 10
+//@ stubs: alloc::fmt::format -> empty string
+//@ bounds: 1 x 3 sketch, every counter value of the counter type; total weight 0 (the empty form: serialize's emptiness rule is total == 0) or any non-zero total, per instance
+//@ desc: serialize() follows the CountMin layout (preLongs 2, serVer 1, family 18, empty flag bit 0, num_buckets u32 @8, num_hashes u8 @12, seed hash u16 @13, then total and counters as 8-byte LE) - serialize() equals, byte for byte, the image a spec encoder written from that layout produces (16 bytes when empty, else 16 + 8 + 8 * cells); deserializing it restores every field
+roundtrip!(c11_countmin_roundtrip_u8, u8, u64, false, 48); //@ tier: quick
+roundtrip!(c11_countmin_roundtrip_u8_empty, u8, u64, true, 16); //@ tier: quick
+roundtrip!(c11_countmin_roundtrip_i8, i8, i64, false, 48); //@ tier: quick
+roundtrip!(c11_countmin_roundtrip_u16, u16, u64, false, 48);
+roundtrip!(c11_countmin_roundtrip_i16, i16, i64, false, 48);
+roundtrip!(c11_countmin_roundtrip_u32, u32, u64, false, 48);
+roundtrip!(c11_countmin_roundtrip_i32, i32, i64, false, 48);
+roundtrip!(c11_countmin_roundtrip_u64, u64, u64, false, 48);
+roundtrip!(c11_countmin_roundtrip_i64, i64, i64, false, 48); //@ tier: quick
+roundtrip!(c11_countmin_roundtrip_i64_empty, i64, i64, true, 16);
 //@ endfamily: x
 
 macro_rules! any_bytes {
-    ($name:ident, $t:ty) => {
+    ($name:ident, $t:ty, $fixed_config:expr) => {
         #[kani::proof]
         #[kani::unwind(12)]
         #[kani::stub(alloc::fmt::format, stub_format)]
         fn $name() {
-            let img: [u8; 48] = kani::any();
+            let mut img: [u8; 48] = kani::any();
             let len: usize = kani::any();
             kani::assume(len <= 48);
-            // keep the table small enough for the follow-up operations (the header checks see every value)
+            if $fixed_config {
+                // configuration fields as literals (1 hash function, 3 buckets): the table allocation and the
+                // hash-seed derivation are then concrete; every other byte and the length stay symbolic. The
+                // configuration arithmetic for every (hashes, buckets) pair is c08_entries_for_config.
+                img[8] = 3;
+                img[9] = 0;
+                img[10] = 0;
+                img[11] = 0;
+                img[12] = 1;
+            }
             let r = CountMinSketch::<$t>::deserialize(&img[..len]);
             kani::cover!(r.is_ok());
             kani::cover!(r.is_err());
-            if let Ok(mut g) = r {
+            if let Ok(g) = r {
                 assert!(g.num_hashes >= 1 && g.num_buckets >= 3);
                 assert!(g.counts.len() == g.num_hashes as usize * g.num_buckets as usize);
                 assert!(g.hash_seeds.len() == g.num_hashes as usize);
-                if g.counts.len() <= 4 {
-                    let _ = g.estimate(7u64);
+                if $fixed_config {
                     let _ = g.is_empty();
-                    let out = g.serialize();
-                    core::mem::forget(out);
+                    kani::cover!(!g.is_empty());
                 }
                 core::mem::forget(g);
             } else {
@@ -436,8 +469,11 @@ macro_rules! any_bytes {
 //@ functions: countmin::CountMinSketch::deserialize
 //@ functions: countmin::CountMinValue::try_from_bytes
 //@ unwind: 12
-//@ bounds: every byte string of length 0..=48; follow-up estimate/serialize only on tables of <= 4 counters
-//@ desc: deserialize returns Ok or Err without panic for every byte string; an Ok value is structurally consistent and can be queried and re-serialized
-any_bytes!(c14_countmin_any_bytes_u8, u8); //@ tier: quick
-any_bytes!(c14_countmin_any_bytes_i64, i64);
+//@ stubs: alloc::fmt::format -> empty string
+//@ bounds: every byte string of length 0..=48; in the *_config_1x3 instances the configuration fields (num_buckets @8, num_hashes @12) are the literals 3 and 1 and every other byte (preamble, version, family, flags, seed hash, total weight, counters) is symbolic; the *_any_config instances leave the configuration symbolic too (configuration-sized allocation: outside the allocation claim)
+//@ desc: deserialize returns Ok or Err without panic for every byte string (signed counter types: negative values are rejected, not wrapped); an Ok value is structurally consistent
+any_bytes!(c14_countmin_any_bytes_u8_config_1x3, u8, true); //@ tier: quick
+any_bytes!(c14_countmin_any_bytes_i64_config_1x3, i64, true); //@ tier: quick
+any_bytes!(c14_countmin_any_bytes_u8_any_config, u8, false);
+any_bytes!(c14_countmin_any_bytes_i64_any_config, i64, false);
 //@ endfamily: x
